@@ -813,6 +813,9 @@ func (p *Process) onStateChange(state string) {
 		}
 	case types.ProcessStateRestarting:
 		fallthrough
+	case types.ProcessStateRunning:
+		// a new launch has not passed any probe yet
+		fallthrough
 	case types.ProcessStateLaunching:
 		fallthrough
 	case types.ProcessStateTerminating:
